@@ -109,10 +109,11 @@ type run struct {
 	nextDep    int64
 	guard      *guard
 
-	smu  sync.Mutex // guards sch
-	sch  schedState
-	rnd  *rand.Rand
-	rnd2 *randv2.Rand
+	smu    sync.Mutex // guards sch
+	sch    schedState
+	rnd    *rand.Rand
+	rnd2   *randv2.Rand
+	crypto uint64
 
 	ev      uint64
 	mapEvts int
@@ -271,6 +272,57 @@ func Now() time.Time {
 
 // Since replaces time.Since.
 func Since(t time.Time) time.Duration { return Now().Sub(t) }
+
+// Getpid / Getppid replace os.Getpid / os.Getppid: a process id is the environment's choice
+// (a warm worker would otherwise report the same one for every simulated process).
+func Getpid() int {
+	r := cur
+	if r == nil {
+		return os.Getpid()
+	}
+	if r.sc.Sched == "canon" {
+		return 4242
+	}
+	return 300 + int(mix(r.sc.Seed^0x706964)%4_000_000)
+}
+
+func Getppid() int { return Getpid()/2 + 1 }
+
+// CryptoRead replaces crypto/rand.Read (and, through it, Text and Int): fresh entropy in
+// every real process, the run's PRNG here, so that a run that prints it replays exactly.
+func CryptoRead(b []byte) (int, error) {
+	r := cur
+	if r == nil {
+		for i := range b {
+			b[i] = byte(i)
+		}
+		return len(b), nil
+	}
+	r.smu.Lock()
+	defer r.smu.Unlock()
+	seed := uint64(1)
+	if r.sc.Sched != "canon" {
+		seed = r.sc.Seed
+	}
+	r.crypto++
+	p := prng{s: mix(seed ^ 0x63727970 ^ r.crypto<<32)}
+	for i := range b {
+		b[i] = byte(p.next() >> 24)
+	}
+	return len(b), nil
+}
+
+const cryptoAlphabet = "ABCDEFGHIJKLMNOPQRSTUVWXYZ234567"
+
+// CryptoText replaces crypto/rand.Text.
+func CryptoText() string {
+	var b [26]byte
+	CryptoRead(b[:])
+	for i := range b {
+		b[i] = cryptoAlphabet[int(b[i])%len(cryptoAlphabet)]
+	}
+	return string(b[:])
+}
 
 func (r *run) recompute() {
 	r.mu.Lock()
